@@ -92,57 +92,63 @@ let build_tree (tr : int) : tree option =
 let fuel = nat_of_int 400
 
 let () =
-  let bs = ref [] and ts = ref [] and cur = ref (T ([], [])) and running = ref false and silent = ref false in
+  let st = ref life0 and silent = ref false and cfg_ok = ref true and icap = ref 64 and thlog = ref false in
   let board_idx s = idnum s in
+  let set_bs b = st := { !st with l_bs = b } and set_ts t = st := { !st with l_ts = t } in
   let dump () =
     List.iteri (fun i s ->
       if s.s_conn then (let ((t, sb), ss) = s.s_addr in out (Printf.sprintf "b b%d 1 %02x%02x%02x" i (int_of_n t) (int_of_n sb) (int_of_n ss)))
-      else out (Printf.sprintf "b b%d 0 -" i)) !bs;
-    let ids f = String.concat "" (List.mapi (fun i s -> if f s then Printf.sprintf " b%d" i else "") !bs) in
+      else out (Printf.sprintf "b b%d 0 -" i)) !st.l_bs;
+    let ids f = String.concat "" (List.mapi (fun i s -> if f s then Printf.sprintf " b%d" i else "") !st.l_bs) in
     out ("bc" ^ ids (fun s -> s.s_conn));
     out ("tc" ^ ids (fun s -> s.s_conn && is_dcc s.s_uid)) in
-  let bb () = combine !cfg.c_boards !bs in
+  let bb () = combine !st.l_cfg.c_boards !st.l_bs in
+  let emit_levs evs =
+    List.iter (fun e -> match e with
+      | LCreate (k, _) -> if !thlog then out ("th create " ^ (match int_of_n k with 0 -> "recv" | 1 -> "heart" | _ -> "flush"))
+      | LJoin (_, live) -> if !thlog then out (if live then "th join live" else "th join STALE")
+      | LMsg m -> emit_msgs [m]
+      | LRet rc -> out (Printf.sprintf "start %d" (int_of_n rc))) evs in
   (try while true do
     let line = input_line stdin in
     match split_ws line with
     | [] -> ()
+    | "#cfg" :: "invalid" :: _ -> cfg_ok := false
+    | "#cfg" :: "valid" :: _ -> cfg_ok := true
+    | "#cfg" :: "begin" :: _ -> cfg_ok := true; cfg_line ["begin"]
     | "#cfg" :: w -> cfg_line w
     | c :: _ when String.length c > 0 && c.[0] = '#' -> ()
     | "case" :: id :: _ -> flush_out (); out ("case " ^ id)
-    | "sim_reset" :: _ -> sim_nodes := []; sim_changes := []; silent := false
+    | "newprocess" :: _ -> st := life0; thlog := false
+    | "sim_reset" :: _ -> sim_nodes := []; sim_changes := []; silent := false; icap := 64
     | "sim_node" :: tr :: id :: p :: l :: u :: _ -> sim_nodes := (num tr, num id, num p, num l, unhex u) :: !sim_nodes
     | "sim_change" :: a :: r :: tr :: _ -> sim_changes := !sim_changes @ [(a, num r, num tr)]
-    | "sim_tree" :: tr :: _ -> (match build_tree (num tr) with Some t -> cur := t | None -> out "bad-tree")
+    | "sim_tree" :: tr :: _ -> (match build_tree (num tr) with Some t -> st := { !st with l_tree = t } | None -> out "bad-tree")
     | "sim_opt" :: "silent" :: v :: _ -> silent := (v <> "0")
+    | "sim_opt" :: "cap" :: v :: _ -> icap := num v
+    | "sim_opt" :: "thlog" :: v :: _ -> thlog := (v <> "0")
     | "sim_opt" :: _ -> ()
-    | "simstart" :: _dbg :: _dir :: _fl :: _ ->
-        if !running then out "start 0"
-        else if !silent then begin
-          emit_msgs probe_msgs; bs := init_bs !cfg; ts := init_ts !cfg;
-          emit_msgs (stop_msgs !cfg !bs !ts); out "start 1"
-        end else begin
-          let pend = List.filter_map (fun (a, r, tr) -> match build_tree tr with
-                                       | Some t -> Some ((addr_of_hex a, n_of_int r), t) | None -> None) !sim_changes in
-          (match build_tree 0 with
-           | None -> out "bad-tree"
-           | Some t0 ->
-             (match startup fuel !cfg t0 pend with
-              | Some (((ms, b), s), tf) -> emit_msgs ms; bs := b; ts := s; cur := tf; running := true; out "start 0"
-              | None -> out "model-out-of-fuel"))
-        end
+    | "simstart" :: dbg :: _dir :: fl :: _ ->
+        let pend = List.filter_map (fun (a, r, tr) -> match build_tree tr with
+                                     | Some t -> Some ((addr_of_hex a, n_of_int r), t) | None -> None) !sim_changes in
+        let t0 = (match build_tree 0 with Some t -> t | None -> T ([], [])) in
+        let (s1, evs) = life_step fuel !st (LStart (dbg <> "0", !cfg_ok, num fl > 0, not !silent, !cfg, t0, pend, n_of_int !icap)) in
+        st := s1; emit_levs evs
+    | "stop" :: _ -> let (s1, evs) = life_step fuel !st LStop in st := s1; emit_levs evs; out "stopped"
+    | ("sim_dump" | "hl" | "sysreset") :: _ when not !st.l_running -> out "not-running"
     | "sysreset" :: _ ->
-        (match sys_reset fuel !cfg !bs !cur [] with
-         | Some (((ms, b), s), tf) -> emit_msgs ms; bs := b; ts := s; cur := tf; out "reset-done"
+        (match sys_reset fuel !st.l_cfg !st.l_bs !st.l_tree [] with
+         | Some (((ms, b), s), tf) -> emit_msgs ms; st := { !st with l_bs = b; l_ts = s; l_tree = tf }; out "reset-done"
          | None -> out "model-out-of-fuel")
     | "sim_up" :: a :: ty :: d :: _ ->
         let data = unhex d in
         let g i = try List.nth data i with _ -> N0 in
-        let u = (try List.filteri (fun i _ -> i >= 2 && i < 9) data with _ -> []) in
+        let u = List.filteri (fun i _ -> i >= 2 && i < 9) data in
         let t = int_of_string ("0x" ^ ty) in
-        if t = 0x8d || t = 0x8c then begin
+        if (t = 0x8d || t = 0x8c) && !st.l_running then begin
           let e = if t = 0x8d then NNew (addr_of_hex a, g 0, g 1, u) else NLost (addr_of_hex a, g 0, g 1, u) in
-          let (b, ms) = notice_step !bs e in
-          bs := b; emit_msgs ms
+          let (b, ms) = notice_step !st.l_bs e in
+          set_bs b; emit_msgs ms
         end
     | "sim_dump" :: _ -> dump ()
     | "hl" :: "point" :: id :: asp :: _ ->
@@ -154,29 +160,35 @@ let () =
     | "hl" :: "periph" :: id :: asp :: _ ->
         let f = hl_periph (bb ()) (n_of_int (idnum id)) (n_of_int (idnum asp)) in
         emit_msgs (found_msgs f); out (Printf.sprintf "hl %d" (int_of_n (found_rc f)))
-    | "hl" :: "tperiph" :: tr :: p :: st :: b :: _ ->
+    | "hl" :: "tperiph" :: tr :: p :: v :: b :: _ ->
         let ti = idnum tr and bi = board_idx b in
-        (match List.nth_opt !cfg.c_trains ti, List.nth_opt !ts ti, List.nth_opt !bs bi with
+        (match List.nth_opt !st.l_cfg.c_trains ti, List.nth_opt !st.l_ts ti, List.nth_opt !st.l_bs bi with
          | Some t, Some s, Some bd ->
-             let (ms, s1) = hl_train_periph t s bd (n_of_int (idnum p)) (n_of_int (num st)) in
-             ts := set_nth (nat_of_int ti) !ts s1; emit_msgs ms;
+             let (ms, s1) = hl_train_periph t s bd (n_of_int (idnum p)) (n_of_int (num v)) in
+             set_ts (set_nth (nat_of_int ti) !st.l_ts s1); emit_msgs ms;
              out (Printf.sprintf "hl %d" (int_of_n (hl_train_periph_rc t bd (n_of_int (idnum p)))))
          | _ -> out "hl 1")
     | "hl" :: "speed" :: tr :: _sp :: b :: _ ->
         let ti = idnum tr and bi = board_idx b in
-        (match List.nth_opt !cfg.c_trains ti, List.nth_opt !ts ti, List.nth_opt !bs bi with
+        (match List.nth_opt !st.l_cfg.c_trains ti, List.nth_opt !st.l_ts ti, List.nth_opt !st.l_bs bi with
          | Some t, Some s, Some bd ->
              let (ms, s1) = hl_train_speed0 t s bd in
-             ts := set_nth (nat_of_int ti) !ts s1; emit_msgs ms;
+             set_ts (set_nth (nat_of_int ti) !st.l_ts s1); emit_msgs ms;
              out (Printf.sprintf "hl %d" (int_of_n (hl_train_speed_rc bd)))
          | _ -> out "hl 1")
-    | "hl" :: "tstate" :: b :: st :: _ ->
-        (match List.nth_opt !bs (board_idx b) with
-         | Some bd -> let (ms, rc) = hl_track_state bd (n_of_int (num st)) in emit_msgs ms; out (Printf.sprintf "hl %d" (int_of_n rc))
+    | "hl" :: "tstate" :: b :: v :: _ ->
+        (match List.nth_opt !st.l_bs (board_idx b) with
+         | Some bd -> let (ms, rc) = hl_track_state bd (n_of_int (num v)) in emit_msgs ms; out (Printf.sprintf "hl %d" (int_of_n rc))
          | None -> out "hl 1")
-    | "stop" :: _ ->
-        if !running then begin emit_msgs (stop_msgs !cfg !bs !ts); running := false end;
-        out "stopped"
+    | "globals" :: _ ->
+        out (Printf.sprintf "globals running=%d seq=%d discard=%d" (if !st.l_running then 1 else 0) (if !st.l_seq then 1 else 0) (if !st.l_discard then 1 else 0))
+    | "capprobe" :: _ ->
+        if !st.l_running then begin
+          emit_msgs (List.init 17 (fun _ -> ((root_addr, mSG_SYS_ENABLE), [])));
+          out (Printf.sprintf "capprobe %d" (int_of_n (probe_writes !st.l_cap (nat_of_int 17) N0)))
+        end else out "not-running"
+    | "thstate" :: _ -> out (Printf.sprintf "th live %d" (List.length !st.l_live))
+    | "leakcheck" :: _ -> out "leak 0"
     | "mark" :: r -> out ("mark " ^ String.concat " " r)
     | c :: _ -> out ("unknown-command " ^ c)
   done with End_of_file -> ());
